@@ -36,8 +36,16 @@ SITE = {"now": "schedule_event_now", "rel": "schedule_event_relative", "abs": "s
 CLS = {"ABM": "ABMSimulator", "DEVS": "DEVSimulator"}
 
 
+# Non-dyadic float stream (C14): a case with "float": true carries its times as the Python floats themselves (decimal
+# tenths / hundredths); nothing is scaled, the Z-scaled Gallina model is skipped for it (run_impl returns "model": False)
+# and the oracle works on the floats exactly as the simulator got them.
+_MODE = {"float": False}
+
+
 def tv(t, fl):
     """the Python value for scaled time t"""
+    if _MODE["float"]:
+        return t
     if fl or t % S:
         return t / S
     return t // S
@@ -45,11 +53,27 @@ def tv(t, fl):
 
 def sc(x):
     """scaled int of a simulator time (exact for the dyadic inputs the generators produce)"""
+    if _MODE["float"]:
+        return x
     v = x * S
     i = int(v)
     if i != v:
         raise ValueError(f"non-dyadic time {x!r}")
     return i
+
+
+def _d(x):
+    """a time for a message"""
+    return x if _MODE["float"] else x / S
+
+
+def _tu():
+    return "time" if _MODE["float"] else "time*8"
+
+
+def _obs_int(x):
+    """observations are lists of ints also in the float stream (they are only counted there, never compared)"""
+    return x if isinstance(x, int) else int(round(x * 1000000))
 
 
 # ============================================================== implementation side
@@ -186,6 +210,7 @@ class _Env:
         if k == "sched":
             rc, t = self.do_sched(*op[1:])
             info["rc"] = rc
+            info["t"] = t
             hd = [0] if rc == R_OK else [-2] if rc == R_SKIP else [-1, rc]
             ob = hd + self.view([])
         elif k == "cancel":
@@ -304,17 +329,17 @@ def oracle(case, recs):
         when = {"abs": t, "rel": now + t, "now": now, "tick": now + S}[kind]
         past = when < now
         unit_bad = abm and when % S != 0
-        call = f"{site}({'' if kind in ('now', 'tick') else tv(t, fl)}) at time {now / S} ({where})"
+        call = f"{site}({'' if kind in ('now', 'tick') else tv(t, fl)}) at time {_d(now)} ({where})"
         if rc == R_OK:
             if past:
                 fail(f"C14/{cls}/{site}/accepted-in-past", i,
-                     f"{call} was accepted: the event is scheduled for {when / S}, before the current time")
+                     f"{call} was accepted: the event is scheduled for {_d(when)}, before the current time")
             elif unit_bad:
-                fail(f"C14/{cls}/{site}/accepted-wrong-unit", i, f"{call} was accepted although {when / S} is not an integer time")
+                fail(f"C14/{cls}/{site}/accepted-wrong-unit", i, f"{call} was accepted although {_d(when)} is not an integer time")
             sh.add(tag, when, prio, h, body)
         else:
             if not past and not unit_bad:
-                fail(f"C14/{cls}/{site}/valid-call-rejected", i, f"{call} was rejected ({'past' if rc == R_PAST else 'unit'}) although {when / S} is a legal time")
+                fail(f"C14/{cls}/{site}/valid-call-rejected", i, f"{call} was rejected ({'past' if rc == R_PAST else 'unit'}) although {_d(when)} is a legal time")
             if before is not None and before != after:
                 why = "past" if rc == R_PAST else "unit"
                 msg = f"{call} raised ValueError but changed the simulator: before {before}, after {after}"
@@ -331,7 +356,7 @@ def oracle(case, recs):
                 code = log[pos][0]
                 rc = R_OK if code == 4 else code
                 if rc == R_OK and log[pos][2] != {"abs": a[2], "rel": now + a[2], "now": now, "tick": now + S}[a[1]]:
-                    fail(f"C14/{cls}/{SITE[a[1]]}/wrong-event-time", i, f"event {a[5]} got time {log[pos][2] / S} ({where})")
+                    fail(f"C14/{cls}/{SITE[a[1]]}/wrong-event-time", i, f"event {a[5]} got time {_d(log[pos][2])} ({where})")
                 expect_sched(i, a, now, rc, where)
                 pos += 1
             elif a[0] == "cancel":
@@ -357,6 +382,12 @@ def oracle(case, recs):
                 fail(f"C18/devs/{SITE[kind]}-{why}", i, msg)
                 fail(f"C14/{cls}/{SITE[kind]}/rejected-call-changed-state", i, msg)
         if k == "sched":
+            if info["rc"] == R_OK:
+                want = {"abs": op[2], "rel": before[0] + op[2], "now": before[0], "tick": before[0] + S}[op[1]]
+                if info["t"] != want:
+                    fail(f"C14/{cls}/{SITE[op[1]]}/wrong-event-time", i,
+                         f"{SITE[op[1]]}({tv(op[2], op[3])!r}) at time {_d(before[0])!r}: the event got time {_d(info['t'])!r}, not {_d(want)!r}")
+                    break
             expect_sched(i, op, before[0], info["rc"], "top level", before, after)
         elif k == "cancel":
             for e in sh.pend:
@@ -397,17 +428,17 @@ def oracle(case, recs):
                         cands.sort(key=lambda e: e["time"])
                         e = cands[0] if cands else None
                         if e is None:
-                            fail(f"C15/{cls}/step/ran-without-being-scheduled", i, f"model.step ran at {clk / S} but no step is pending in the history")
+                            fail(f"C15/{cls}/step/ran-without-being-scheduled", i, f"model.step ran at {_d(clk)} but no step is pending in the history")
                             break
                     else:
                         cands = [e for e in sh.pend if e["tag"] == it[1] and not e["step"]]
                         if not cands:
                             fail(f"C14/{cls}/execution/event-executed-twice-or-never-scheduled", i,
-                                 f"event {it[1]} ran at {clk / S} but is not pending (already executed, or never accepted)")
+                                 f"event {it[1]} ran at {_d(clk)} but is not pending (already executed, or never accepted)")
                             break
                         e = cands[0]
                         if e["cancelled"]:
-                            fail(f"C14/{cls}/execution/cancelled-event-executed", i, f"event {it[1]} was cancelled and ran at {clk / S}")
+                            fail(f"C14/{cls}/execution/cancelled-event-executed", i, f"event {it[1]} was cancelled and ran at {_d(clk)}")
                             break
                         if e["holder"] in sh.dead:
                             fail(f"C14/{cls}/execution/dead-callable-executed", i, f"event {it[1]}: its callable was dropped, yet it ran")
@@ -415,13 +446,13 @@ def oracle(case, recs):
                     nexec += 1
                     if clk != e["time"]:
                         fail((f"C15/{cls}/step/not-at-its-tick" if is_step else f"C14/{cls}/clock/differs-from-event-time"), i,
-                             f"{'model.step' if is_step else 'event ' + str(it[1])} scheduled for {e['time'] / S} ran with simulator.time = {clk / S}")
+                             f"{'model.step' if is_step else 'event ' + str(it[1])} scheduled for {_d(e['time'])} ran with simulator.time = {_d(clk)}")
                         break
                     if clk < prev and in_q:
-                        fail(f"C14/{cls}/clock/moved-backwards", i, f"clock went from {prev / S} to {clk / S} in {op}")
+                        fail(f"C14/{cls}/clock/moved-backwards", i, f"clock went from {_d(prev)} to {_d(clk)} in {op}")
                         break
                     if horizon is not None and e["time"] > horizon:
-                        fail(f"C14/{cls}/run_until/executed-beyond-horizon", i, f"event {it[1]} at {e['time'] / S} ran in {op} (horizon {horizon / S})")
+                        fail(f"C14/{cls}/run_until/executed-beyond-horizon", i, f"event {it[1]} at {_d(e['time'])} ran in {op} (horizon {_d(horizon)})")
                         break
                     if k == "next" and nexec > 1:
                         fail(f"C14/{cls}/run_next_event/more-than-one-event", i, f"run_next_event ran {nexec} events")
@@ -437,12 +468,12 @@ def oracle(case, recs):
                         if less:
                             if o["step"] and o["time"] == e["time"]:
                                 fail(f"C15/{cls}/step/after-lower-priority-event", i,
-                                     f"event {it[1]} (priority {e['prio']}) ran at tick {clk / S} before that tick's model.step")
+                                     f"event {it[1]} (priority {e['prio']}) ran at tick {_d(clk)} before that tick's model.step")
                             elif o["step"]:
-                                fail(f"C15/{cls}/step/missed-tick", i, f"event {it[1]} ran at {clk / S} while the model.step of tick {o['time'] / S} has not run")
+                                fail(f"C15/{cls}/step/missed-tick", i, f"event {it[1]} ran at {_d(clk)} while the model.step of tick {_d(o['time'])} has not run")
                             else:
                                 fail(f"C14/{cls}/order/not-in-time-priority-fifo-order", i,
-                                     f"{'model.step' if is_step else 'event ' + str(it[1])} (time {e['time'] / S}, priority {e['prio']}) ran while event {o['tag']} (time {o['time'] / S}, priority {o['prio']}, scheduled {'earlier' if o['seq'] < e['seq'] else 'later'}) was pending")
+                                     f"{'model.step' if is_step else 'event ' + str(it[1])} (time {_d(e['time'])}, priority {e['prio']}) ran while event {o['tag']} (time {_d(o['time'])}, priority {o['prio']}, scheduled {'earlier' if o['seq'] < e['seq'] else 'later'}) was pending")
                             break
                     if fails:
                         break
@@ -457,13 +488,13 @@ def oracle(case, recs):
                             fail(f"C15/{cls}/step/steps-not-incremented-by-one", i, f"model.steps is {it[1]} in step number {sh.nsteps}")
                             break
                         if judged_clock and clk != sh.nsteps * S:
-                            fail(f"C15/{cls}/step/not-once-per-tick", i, f"step number {sh.nsteps} ran at time {clk / S}")
+                            fail(f"C15/{cls}/step/not-once-per-tick", i, f"step number {sh.nsteps} ran at time {_d(clk)}")
                             break
                         nxt = sh.add_step(clk + S)      # the statement: step runs at every tick
-                        pos = run_body(i, script.get(it[1], []), log, pos, clk, f"from model.step at {clk / S}")
+                        pos = run_body(i, script.get(it[1], []), log, pos, clk, f"from model.step at {_d(clk)}")
                         nxt["seq2"] = sh.nseq()
                     else:
-                        pos = run_body(i, e["body"], log, pos, clk, f"from event {it[1]} at {clk / S}")
+                        pos = run_body(i, e["body"], log, pos, clk, f"from event {it[1]} at {_d(clk)}")
                 else:
                     fail(f"C14/{cls}/trace/stray-log-item", i, f"log item {it} outside any event: {log}")
             if fails:
@@ -471,15 +502,15 @@ def oracle(case, recs):
             clk_after = after[0]
             if k in ("until", "for") and in_q:
                 if clk_after != horizon:
-                    fail(f"C14/{cls}/run_until/clock-not-at-horizon", i, f"after {op} from {now0 / S} the clock is {clk_after / S}, not {horizon / S}")
+                    fail(f"C14/{cls}/run_until/clock-not-at-horizon", i, f"after {op} from {_d(now0)} the clock is {_d(clk_after)}, not {_d(horizon)}")
                     break
                 left = [e for e in sh.pend if sh.runnable(e) and e["time"] <= horizon]
                 if left:
                     e = min(left, key=lambda e: (e["time"], e["prio"], e["seq"]))
                     if e["step"]:
-                        fail(f"C15/{cls}/step/missed-tick", i, f"after {op} the clock is {clk_after / S} but model.step never ran at tick {e['time'] / S} (model.steps = {after[1]})")
+                        fail(f"C15/{cls}/step/missed-tick", i, f"after {op} the clock is {_d(clk_after)} but model.step never ran at tick {_d(e['time'])} (model.steps = {after[1]})")
                     else:
-                        fail(f"C14/{cls}/run_until/live-event-not-executed", i, f"event {e['tag']} at {e['time'] / S} is live but was not run by {op}")
+                        fail(f"C14/{cls}/run_until/live-event-not-executed", i, f"event {e['tag']} at {_d(e['time'])} is live but was not run by {op}")
                     break
                 sh.pend = [e for e in sh.pend if e["time"] > horizon or sh.runnable(e)]
             elif k in ("until", "for"):
@@ -491,20 +522,20 @@ def oracle(case, recs):
                     if lv:
                         m = lv[0]
                         if sh.runnable(m):
-                            fail(f"C14/{cls}/run_next_event/live-event-not-executed", i, f"run_next_event ran nothing although event {m['tag']} at {m['time'] / S} is pending")
+                            fail(f"C14/{cls}/run_next_event/live-event-not-executed", i, f"run_next_event ran nothing although event {m['tag']} at {_d(m['time'])} is pending")
                             break
                         sh.pend.remove(m)
                         if clk_after != m["time"]:
-                            fail(f"C14/{cls}/clock/differs-from-event-time", i, f"run_next_event consumed event {m['tag']} (dead callable) at {m['time'] / S}; clock is {clk_after / S}")
+                            fail(f"C14/{cls}/clock/differs-from-event-time", i, f"run_next_event consumed event {m['tag']} (dead callable) at {_d(m['time'])}; clock is {_d(clk_after)}")
                             break
                     elif clk_after != now0:
-                        fail(f"C14/{cls}/clock/moved-without-event", i, f"run_next_event on an empty list moved the clock to {clk_after / S}")
+                        fail(f"C14/{cls}/clock/moved-without-event", i, f"run_next_event on an empty list moved the clock to {_d(clk_after)}")
                         break
                 elif clk_after != prev:
-                    fail(f"C14/{cls}/clock/differs-from-event-time", i, f"after run_next_event the clock is {clk_after / S}, the event ran at {prev / S}")
+                    fail(f"C14/{cls}/clock/differs-from-event-time", i, f"after run_next_event the clock is {_d(clk_after)}, the event ran at {_d(prev)}")
                     break
             if clk_after < now0 and in_q:
-                fail(f"C14/{cls}/clock/moved-backwards", i, f"clock went from {now0 / S} to {clk_after / S} in {op}")
+                fail(f"C14/{cls}/clock/moved-backwards", i, f"clock went from {_d(now0)} to {_d(clk_after)} in {op}")
                 break
             # C15: steps against the clock
             if abm and judged_clock:
@@ -513,10 +544,10 @@ def oracle(case, recs):
                     fail(f"C15/{cls}/step/steps-differ-from-step-calls", i, f"model.steps = {steps}, model.step ran {sh.nsteps} times")
                     break
                 if k in ("until", "for") and steps * S != clk_after:
-                    fail(f"C15/{cls}/{'run_until' if k == 'until' else 'run_for'}/steps-differ-from-clock", i, f"after {op}: model.steps = {steps}, clock = {clk_after / S}")
+                    fail(f"C15/{cls}/{'run_until' if k == 'until' else 'run_for'}/steps-differ-from-clock", i, f"after {op}: model.steps = {steps}, clock = {_d(clk_after)}")
                     break
                 if k == "next" and not (clk_after - S <= steps * S <= clk_after):
-                    fail(f"C15/{cls}/run_next_event/steps-differ-from-clock", i, f"after run_next_event: model.steps = {steps}, clock = {clk_after / S}")
+                    fail(f"C15/{cls}/run_next_event/steps-differ-from-clock", i, f"after run_next_event: model.steps = {steps}, clock = {_d(clk_after)}")
                     break
         elif k == "peek":
             n = op[1]
@@ -532,7 +563,7 @@ def oracle(case, recs):
                     exp2 = [[e["tag"], e["time"], e["prio"]] for e in sh.order("seq2")[:n]]
                     if info["peek"] != exp1 and info["peek"] != exp2:
                         fail("C14/EventList/peak_ahead/not-in-execution-order", i,
-                             f"peak_ahead({n}) = {info['peek']} (tag, time*8, priority); the live events in the order they will run are {exp1}")
+                             f"peak_ahead({n}) = {info['peek']} (tag, {_tu()}, priority); the live events in the order they will run are {exp1}")
                         break
         # after every op: nothing but the call may have changed the state; the pending live events are those scheduled
         if fails:
@@ -545,7 +576,7 @@ def oracle(case, recs):
             if any(e[0] == -1 for e in lost + extra):
                 fail(f"C15/{cls}/step/next-step-not-pending", i, f"after {op}: model.step should be pending for the next tick; missing {lost}, unexpected {extra}")
             else:
-                fail(f"C14/{cls}/pending/differs-from-what-was-scheduled", i, f"after {op}: events lost {lost}, unexpected {extra} (tag, time*8, priority)")
+                fail(f"C14/{cls}/pending/differs-from-what-was-scheduled", i, f"after {op}: events lost {lost}, unexpected {extra} (tag, {_tu()}, priority)")
             break
         if k in ("sched", "cancel", "drop", "peek") and (after[0] != before[0] or after[1] != before[1]):
             fail(f"C14/{cls}/{k}/changed-clock-or-steps", i, f"{op}: clock/steps {before[:2]} -> {after[:2]}")
@@ -609,22 +640,28 @@ def chunk_oracle(case, recs):
         last = recs[g[-1]][1]
         log1 = [it for x in g for it in recs[x][1]["log"]]
         if info2["after"] != last["after"] or info2["log"] != log1:
-            what = (f"ops {g[0]}..{g[-1]} {[ops[x] for x in g]} reach clock {last['after'][0] / S} with steps={last['after'][1]}, "
-                    f"log={log1}, pending={last['after'][2]}; the same history with run_until({last['after'][0] / S}) in one piece "
-                    f"gives clock {info2['after'][0] / S}, steps={info2['after'][1]}, log={info2['log']}, pending={info2['after'][2]}")
+            what = (f"ops {g[0]}..{g[-1]} {[ops[x] for x in g]} reach clock {_d(last['after'][0])} with steps={last['after'][1]}, "
+                    f"log={log1}, pending={last['after'][2]}; the same history with run_until({_d(last['after'][0])}) in one piece "
+                    f"gives clock {_d(info2['after'][0])}, steps={info2['after'][1]}, log={info2['log']}, pending={info2['after'][2]}")
             fails.append({"key": f"C15/{cls}/chunking/differs-from-one-piece", "op": g[-1], "what": what})
             break
     return fails
 
 
 def run_impl(case):
-    recs = simulate(case, case["ops"])
-    fails = oracle(case, recs)
+    _MODE["float"] = bool(case.get("float"))
     try:
-        fails += chunk_oracle(case, recs)
-    except Exception as e:  # noqa: BLE001
-        fails.append({"key": f"C15/{CLS[case['cls']]}/chunking/one-piece-run-raised", "op": -1, "what": f"{type(e).__name__}: {e}"})
-    return {"obs": [ob for ob, _ in recs], "failures": fails}
+        recs = simulate(case, case["ops"])
+        fails = oracle(case, recs)
+        try:
+            fails += chunk_oracle(case, recs)
+        except Exception as e:  # noqa: BLE001
+            fails.append({"key": f"C15/{CLS[case['cls']]}/chunking/one-piece-run-raised", "op": -1, "what": f"{type(e).__name__}: {e}"})
+        if _MODE["float"]:
+            return {"obs": [[_obs_int(x) for x in ob] for ob, _ in recs], "failures": fails, "model": False}
+        return {"obs": [ob for ob, _ in recs], "failures": fails}
+    finally:
+        _MODE["float"] = False
 
 
 # ============================================================== model side
@@ -655,6 +692,8 @@ def coq_op(op):
 
 
 def coq_case(case):
+    if case.get("float"):       # never evaluated by the model; only printed if a replay file asks for model observations
+        return "{| c_cfg := {| c_abm := false; c_script := [] |}; c_setup := true; c_fuel := 1%nat; c_ops := [] |}"
     script = L.lst([L.pair(L.z(k), L.lst([coq_act(a) for a in acts])) for k, acts in case.get("script", [])])
     cfg = f"{{| c_abm := {L.b(case['cls'] == 'ABM')}; c_script := {script} |}}"
     return (f"{{| c_cfg := {cfg}; c_setup := {L.b(case.get('setup', True))}; c_fuel := {int(case.get('fuel', 300))}%nat; "
